@@ -13,8 +13,8 @@ from ..conc import fmt, io_selftest, mark_interleaved, run_scheduled
 LEVEL = 'exploration'
 RULE = (
     'programs of 2-4 clients x 1-4 calls from {set, add, a set that fails at its row write, incr, decr, get, [], pop, delete, touch, in, len, '
-    'list(), close(), construct-and-close a further handle} on '
-    'keys {x, y, n} with inline and file-backed values (distinct fill bytes per writer), a generated initial state, a '
+    'list(), close(), construct-and-close a further handle, expire(), begin an iteration and finish it later} on '
+    'keys {x, y, n} with inline and file-backed values (distinct fill bytes per writer), a generated initial state (items may have expired before the program starts), a '
     'sharing mode (one Cache object shared by the threads / one Cache object per thread, i.e. separate SQLite '
     'connections), statistics or LRU on in some cases, and a generated schedule: run-length segments [client, steps] '
     'over the yield points (every SQL statement, file open/write/read/close, directory op) + round-robin tail. Oracle: '
